@@ -12,10 +12,12 @@ import (
 	"log"
 	"net"
 	"os"
+	"strings"
 	"sync"
 	"time"
 
 	"github.com/absfs/absfs"
+	"verif.local/lib/evid"
 	"verif.local/lib/refs"
 	"verif.local/lib/rfc"
 	"verif.local/lib/xdrw"
@@ -190,8 +192,15 @@ func (c *vfClient) rawCall(prog, vers, proc uint32, args []byte) (uint32, []byte
 	body := bytes.NewReader(msg[len(msg)-rd.Len():])
 	ctx := &AuthContext{ClientIP: c.IP, ClientPort: c.Port, Credential: &call.Credential, AuthSys: c.PreParsed}
 	c.LastCtx = ctx
+	t0 := time.Now()
 	reply, err := c.s.ph.HandleCall(call, body, ctx)
 	if err != nil {
+		if el := time.Since(t0); el >= 5*time.Second && strings.Contains(err.Error(), "timed out") {
+			// the server's own wall-clock timeout (30 s by default) expired on a request that got at
+			// least 5 s: on a loaded machine that is no verdict about anything but the clock.
+			// evid records a violation carrying this marker as an inconclusive episode instead.
+			return xid, nil, fmt.Errorf("HandleCall: %w [%s after %.1fs]", err, evid.WallClockMarker, el.Seconds())
+		}
 		return xid, nil, fmt.Errorf("HandleCall: %w", err)
 	}
 	var buf bytes.Buffer
